@@ -11,17 +11,20 @@ a `dump` line with the complete real ledger.  The model
     the amount of a successful burn) directly on the dumped real state, independent of the model (SPEC).
 
   genesis n=<n> k=v ...            parameters and singleton balances (see `parseGenesis`)
-  acct i general nonce aB aTS dB dTS commission(-|rate) allowances(-|j:amt,...)
+  acct i general nonce aB aTS dB dTS schedule allowances(-|j:amt,...)
+       schedule: - | <rates>/<bounds>, rates: -|start:rate,...  bounds: -|start:min:max,...
   del e d shares | deb epoch d e shares
   init ok|fatal                    run InitChain
   tx signer nonce fee gasLimit size <body> ok|err:<kind>
        body: transfer dst amt | burn amt | escrow e amt | reclaim e shares | allow b neg change | withdraw src amt
+             | amend schedule
+  msg rt <body> ok|err:<kind>      runtime message from runtime account rt; body: transfer | withdraw | escrow | reclaim
   epoch e
   begin proposer(-|i) numEligible voters(-|list) evidence(-|list) ok|fatal
   end ok|fatal
   slash a amount r | tfc dst amount escrow(0|1) r | addrewards epoch factor addrs r
   govdep src amount r | govref dst amount r | govdisc amount r
-  dump total common gov lbf feeacc sigTotal  A i general nonce aB aTS dB dTS allow ... D e d s ... Q ep d e s ... S ent count ...
+  dump total common gov lbf feeacc sigTotal  A i general nonce aB aTS dB dTS allow ... D e d s ... Q ep d e s ... S ent count ... C i schedule ...
 -/
 namespace OasisModel.Staking.LedgerDriver
 open OasisModel OasisModel.Proto OasisModel.Staking OasisModel.Staking.Ledger
@@ -30,8 +33,54 @@ def emptyLedger : Ledger :=
   { n := 0, acct := fun _ => {}, del := fun _ _ => 0, deb := [], common := 0, govDeposits := 0,
     lastBlockFees := 0, feeAcc := 0, totalSupply := 0, params := {} }
 
+/-- What the `debond_exactly_once` clause of C15 expects of the dump that follows an EndBlock with
+an epoch transition: computed with the debonding-queue model `DebSt` (the subject of the C15 theorems
+`onEpochChange_queue`, `onEpochChange_paid`, `debond_exactly_once`), independently of
+`Ledger.onEpochChange`. -/
+structure DebExpect where
+  epoch : Nat
+  general : Nat → Nat          -- general balances after fee disbursement and the payouts
+  pools : Nat → SharePool      -- debonding pools after redeeming the completed delegations
+  queue : List DebEntry        -- what stays queued
+  paid : List Payout           -- one record per completed debonding delegation, in queue order
+
+/-- Every queue entry with `endEpoch ≤ epoch` is redeemed exactly once, in queue order, at the price
+its escrow account's debonding pool has at that moment (`StakeForShares`), and credited to the
+delegator's general balance; the others stay.  `l` is the ledger before EndBlock. -/
+def debondExpect (l : Ledger) : Option DebExpect :=
+  match disburseFeesP l with
+  | .error _ => none
+  | .ok lf =>
+    let st : DebSt := { pools := fun i => (lf.acct i).debonding, general := fun i => (lf.acct i).general,
+                        queue := lf.deb, paid := [] }
+    match DebSt.onEpochChange st lf.epoch with
+    | .error _ => none
+    | .ok st' => some { epoch := lf.epoch, general := st'.general, pools := st'.pools, queue := st'.queue,
+                        paid := st'.paid }
+
+def showEntry (e : DebEntry) : String := s!"(end={e.endEpoch} delegator={e.delegator} escrow={e.escrow} shares={e.shares})"
+
+/-- Compare the observed ledger `o` with the expectation; `none` = clause holds. -/
+def debondSpec (n : Nat) (x : DebExpect) (o : Ledger) : Option String :=
+  let paidTo (i : Nat) := x.paid.filter (fun p => p.entry.delegator == i)
+  let showPaid (ps : List Payout) := String.intercalate "," (ps.map (fun p => s!"{showEntry p.entry}->{p.amount}"))
+  let accts := (List.range n).filterMap (fun i =>
+    if (o.acct i).general != x.general i then
+      some s!"account {i}: general balance {(o.acct i).general} after the epoch transition to {x.epoch}, expected {x.general i} = balance after fee disbursement + exactly one payout per completed debonding delegation at the debonding pool's price [{showPaid (paidTo i)}]"
+    else if (o.acct i).debonding != x.pools i then
+      some s!"escrow account {i}: debonding pool ({(o.acct i).debonding.balance},{(o.acct i).debonding.totalShares}) after the epoch transition to {x.epoch}, expected ({(x.pools i).balance},{(x.pools i).totalShares}) after redeeming each completed debonding delegation once [{showPaid (x.paid.filter (fun p => p.entry.escrow == i))}]"
+    else none)
+  match accts with
+  | d :: _ => some d
+  | [] =>
+    if o.deb != x.queue then
+      some s!"debonding queue after the epoch transition to {x.epoch}: {o.deb.map showEntry}, expected exactly the entries with end epoch > {x.epoch}: {x.queue.map showEntry}"
+    else none
+
 structure St where
   l : Ledger := emptyLedger
+  /-- expectation for the next dump (set by `end` with an epoch transition) -/
+  debExp : Option DebExpect := none
   /-- total supply in the previous dump of the implementation (for the supply rule) -/
   prevTotal : Option Nat := none
   /-- amount burned by the implementation since the previous dump (from op + implementation result) -/
@@ -61,6 +110,41 @@ def parsePairs (s : String) : List (Nat × Nat) :=
       | _, _ => none
     | _ => none)
 
+def parseTriples (s : String) : List (Nat × Nat × Nat) :=
+  if s == "-" then [] else
+  (s.splitOn ",").filterMap (fun p => match p.splitOn ":" with
+    | [a, b, c] => match a.toNat?, b.toNat?, c.toNat? with
+      | some a, some b, some c => some (a, b, c)
+      | _, _, _ => none
+    | _ => none)
+
+/-- `-` (empty) or `<rates>/<bounds>`. -/
+def parseSchedule (s : String) : Option Schedule :=
+  if s == "-" then some {} else
+  match s.splitOn "/" with
+  | [r, b] =>
+    let nr := if r == "-" then 0 else (r.splitOn ",").length
+    let nb := if b == "-" then 0 else (b.splitOn ",").length
+    let rs := parsePairs r
+    let bs := parseTriples b
+    if rs.length == nr && bs.length == nb then
+      some { rates := rs.map (fun x => { start := x.1, rate := x.2 }),
+             bounds := bs.map (fun x => { start := x.1, rateMin := x.2.1, rateMax := x.2.2 }) }
+    else none
+  | _ => none
+
+def showSchedule (s : Schedule) : String :=
+  if s.rates.isEmpty && s.bounds.isEmpty then "-" else
+  let r := if s.rates.isEmpty then "-" else ",".intercalate (s.rates.map (fun x => s!"{x.start}:{x.rate}"))
+  let b := if s.bounds.isEmpty then "-" else ",".intercalate (s.bounds.map (fun x => s!"{x.start}:{x.rateMin}:{x.rateMax}"))
+  r ++ "/" ++ b
+
+def parseGasCosts (s : String) : GasCosts :=
+  match (parseNats s).getD [] with
+  | [t, b, ae, re, am, al, w] =>
+    { transfer := t, burn := b, addEscrow := ae, reclaimEscrow := re, amendCommissionSchedule := am, allow := al, withdraw := w }
+  | _ => {}
+
 def parseGenesis (ws : List String) : Ledger :=
   let kv := kvs ws
   let sched := match kv.find? (·.1 == "sched") with
@@ -77,7 +161,15 @@ def parseGenesis (ws : List String) : Ledger :=
     signingThresholdDen := getNat kv "thrD", minCommissionRate := getNat kv "mincom",
     slashAmount := getNat kv "slash", freezeInterval := getNat kv "freeze",
     burnAddr := getNat kv "burn", reserved := getList kv "reserved", pkOrder := getList kv "pkorder",
-    validators := getList kv "validators", gasPerByte := getNat kv "gasbyte", gasCostOp := getNat kv "gascost" }
+    validators := getList kv "validators", gasPerByte := getNat kv "gasbyte",
+    gasCosts := match kv.find? (·.1 == "gascosts") with
+      | some (_, v) => parseGasCosts v
+      | none =>   -- legacy: one cost for every operation
+        let g := getNat kv "gascost"
+        { transfer := g, burn := g, addEscrow := g, reclaimEscrow := g, amendCommissionSchedule := g, allow := g, withdraw := g },
+    rateChangeInterval := getNat kv "rci" 1, rateBoundLead := getNat kv "rbl" 1, maxRateSteps := getNat kv "mrs" 4,
+    maxBoundSteps := getNat kv "mbs" 4, commissionStakeThreshold := getNat kv "comthr",
+    allowEscrowMessages := getNat kv "escmsg" == 1 }
   { emptyLedger with
     n := getNat kv "n", common := getNat kv "common", govDeposits := getNat kv "gov",
     lastBlockFees := getNat kv "lbf", totalSupply := getNat kv "total", epoch := getNat kv "epoch", params := p }
@@ -108,6 +200,15 @@ def parseBody (ws : List String) : Option TxBody :=
   | ["reclaim", e, s] => do pure (.reclaimEscrow (← e.toNat?) (← s.toNat?))
   | ["allow", b, neg, c] => do pure (.allow (← b.toNat?) (neg == "1") (← c.toNat?))
   | ["withdraw", s, a] => do pure (.withdraw (← s.toNat?) (← a.toNat?))
+  | ["amend", sch] => do pure (.amend (← parseSchedule sch))
+  | _ => none
+
+def parseMsg (ws : List String) : Option MsgBody :=
+  match ws with
+  | ["transfer", d, a] => do pure (.transfer (← d.toNat?) (← a.toNat?))
+  | ["withdraw", s, a] => do pure (.withdraw (← s.toNat?) (← a.toNat?))
+  | ["escrow", e, a] => do pure (.addEscrow (← e.toNat?) (← a.toNat?))
+  | ["reclaim", e, s] => do pure (.reclaimEscrow (← e.toNat?) (← s.toNat?))
   | _ => none
 
 /-- Amount a *successful* transaction burns (from the operation text alone). -/
@@ -125,7 +226,7 @@ partial def parseRecords (l : Ledger) : List String → Option Ledger
       let a : Account := {
         general := g, nonce := nn, allowances := parsePairs al,
         active := { balance := ab, totalShares := ats }, debonding := { balance := db, totalShares := dts },
-        commission := (l.acct i).commission }
+        schedule := (l.acct i).schedule }
       parseRecords (l.setAcct i a) rest
     | _ => none
   | "D" :: e :: d :: s :: rest =>
@@ -140,6 +241,10 @@ partial def parseRecords (l : Ledger) : List String → Option Ledger
     match nats [e, c] with
     | some [e, c] => parseRecords { l with sigBy := upd l.sigBy e c } rest
     | _ => none
+  | "C" :: i :: sch :: rest =>
+    match i.toNat?, parseSchedule sch with
+    | some i, some sch => parseRecords (l.setAcct i { l.acct i with schedule := sch }) rest
+    | _, _ => none
   | _ => none
 where nats (ws : List String) : Option (List Nat) := ws.mapM String.toNat?
 
@@ -161,6 +266,7 @@ def diff (m o : Ledger) : Option String :=
       else if a.nonce != b.nonce then some s!"account {i} nonce model={a.nonce} impl={b.nonce}"
       else if a.active != b.active then some s!"account {i} active pool model=({a.active.balance},{a.active.totalShares}) impl=({b.active.balance},{b.active.totalShares})"
       else if a.debonding != b.debonding then some s!"account {i} debonding pool model=({a.debonding.balance},{a.debonding.totalShares}) impl=({b.debonding.balance},{b.debonding.totalShares})"
+      else if a.schedule != b.schedule then some s!"account {i} commission schedule model={showSchedule a.schedule} impl={showSchedule b.schedule}"
       else if sortAllow a.allowances != sortAllow b.allowances then some s!"account {i} allowances model={sortAllow a.allowances} impl={sortAllow b.allowances}"
       else if m.sigBy i != o.sigBy i then some s!"epochSigning[{i}] model={m.sigBy i} impl={o.sigBy i}"
       else none)
@@ -185,6 +291,7 @@ def resOf (r : Except LErr Ledger) : String :=
 
 def step (st : St) (line : String) : St × String :=
   if st.dead then (st, "skip") else
+  let st0 := st
   let fail (msg : String) : St × String := ({ st with dead := true }, msg)
   let l := st.l
   /- block-level and direct state operations: compare the result kind, keep the new state on success -/
@@ -198,12 +305,12 @@ def step (st : St) (line : String) : St × String :=
   | [] => (st, "ok")
   | "genesis" :: rest => ({ l := parseGenesis rest }, "ok")
   | ["acct", i, g, nn, ab, ats, db, dts, com, al] =>
-    match [i, g, nn, ab, ats, db, dts].mapM String.toNat?, optNat com with
+    match [i, g, nn, ab, ats, db, dts].mapM String.toNat?, parseSchedule com with
     | some [i, g, nn, ab, ats, db, dts], some com =>
       let a : Account := {
         general := g, nonce := nn, allowances := parsePairs al,
         active := { balance := ab, totalShares := ats }, debonding := { balance := db, totalShares := dts },
-        commission := com }
+        schedule := com }
       ({ st with l := l.setAcct i a }, "ok")
     | _, _ => fail "DIVERGE bad-op"
   | ["del", e, d, s] =>
@@ -223,6 +330,19 @@ def step (st : St) (line : String) : St × String :=
       if showErr e != impl then fail s!"DIVERGE tx result model={showErr e} impl={impl}"
       else ({ st with l := compact l', implBurned := st.implBurned + (if impl == "ok" then burnOf l body else 0) }, "ok")
     | _, _, _ => fail "DIVERGE bad-op"
+  | "msg" :: rt :: rest =>
+    match rt.toNat?, rest.getLast?, parseMsg rest.dropLast with
+    | some rt, some impl, some body =>
+      let r := execMsg l rt body
+      let burned := match body, r with
+        | .transfer d a, .ok _ => if d = l.params.burnAddr then a else 0
+        | _, _ => 0
+      let res := match r with
+        | .ok _ => "ok"
+        | .error e => "err:" ++ e.toString
+      if res != impl then fail s!"DIVERGE msg result model={res} impl={impl}"
+      else ({ st with l := compact (keep l r), implBurned := st.implBurned + burned }, "ok")
+    | _, _, _ => fail "DIVERGE bad-op"
   | ["epoch", e] =>
     match e.toNat? with
     | some e => ({ st with l := setEpoch l e }, "ok")
@@ -234,7 +354,10 @@ def step (st : St) (line : String) : St × String :=
       let ent (v : Nat) : Option Nat := l.params.validators[v]?
       direct (beginBlock l (p.bind ent) ne (voters.filterMap ent) evidence) impl
     | _, _, _, _ => fail "DIVERGE bad-op"
-  | ["end", impl] => direct (endBlock l) impl
+  | ["end", impl] =>
+    let exp := if impl == "ok" && l.epochChanged then debondExpect l else none
+    let (st', ans) := direct (endBlock l) impl
+    ({ st' with debExp := exp }, ans)
   | ["slash", a, amount, impl] =>
     match a.toNat?, amount.toNat? with
     | some a, some amount => direct (slashEscrowL l a amount) impl
@@ -263,16 +386,21 @@ def step (st : St) (line : String) : St × String :=
     match [t, c, g, lbf, fa, sgt].mapM String.toNat? with
     | some [t, c, g, lbf, fa, sgt] =>
       let base : Ledger := { l with
-        acct := fun i => { commission := (l.acct i).commission }, del := fun _ _ => 0, deb := [],
+        acct := fun _ => {}, del := fun _ _ => 0, deb := [],
         sigBy := fun _ => 0, totalSupply := t, common := c, govDeposits := g,
         lastBlockFees := lbf, feeAcc := fa, sigTotal := sgt }
       match parseRecords base recs with
       | none => fail "DIVERGE bad-dump"
       | some o =>
         let o := compact o
+        let st := { st with debExp := none }
+        let debSpec := match st0.debExp with
+          | some x => debondSpec l.n x o
+          | none => none
         -- spec-on-implementation, independent of the model's own state (only the ghost flag
         -- `lbfSpent`, set between BeginBlock and EndBlock, is taken from the model)
-        if !(supplyOk o) then
+        if let some msg := debSpec then fail ("SPEC debond-exactly-once violated on the real ledger: " ++ msg)
+        else if !(supplyOk o) then
           fail s!"SPEC supply equation violated on the real ledger: total={o.totalSupply} accounts={accountsTotal o} common={o.common} gov={o.govDeposits} lastBlockFees={o.lastBlockFees}(spent={o.lbfSpent}) feeAcc={o.feeAcc}"
         else if !(sharesOk o) then fail "SPEC share bookkeeping violated on the real ledger: a pool's total shares differ from the sum of its delegations"
         else if !(scopeOk o) then fail "SPEC debonding entry for an unknown account"
